@@ -9,7 +9,7 @@
 
     Assumed, not modelled: atomicity of rename(2), durability (nothing is fsynced),
     user-space buffering (the bytes of a file with an open write handle are unspecified). *)
-From PV Require Import FsRewrite FsRewriteProofs.
+From PV Require Import FsRewrite FsRewriteProofs GenC15 GenC15Proofs.
 Open Scope string_scope.
 
 (** the name supply hypothesis is satisfiable *)
@@ -161,6 +161,58 @@ Theorem C15_unmatched_untouched : forall nm F xf k m paths n s0,
          (all_states (run_files nm F xf k m paths n s0)).
 Proof. exact unmatched_untouched. Qed.
 Print Assumptions C15_unmatched_untouched.
+
+(** * Tie B: what is READ FROM THE SOURCE (Gen/GenC15.v, regenerated from
+    pypyr/utils/filesystem.py on every run by tools/py2coq_c15.py) *)
+
+(** is_same_file, as written, computes the model's routing decision: in_path is a file, a
+    missing out_path is falsy, "same file" on the model's names (files, not spellings). *)
+Theorem C15_source_same_file_test_is_model : forall d src out,
+  isfile d src = true ->
+  gen_is_same_file true (match out with Some _ => true | None => false end)
+                   (isfile d src) (match out with Some o => isfile d o | None => false end)
+                   (same_file src out)
+  = same_file src out.
+Proof. exact gen_is_same_file_is_model. Qed.
+Print Assumptions C15_source_same_file_test_is_model.
+
+(** The statement structure of the two in_to_out methods, of the three helpers and of the
+    files_in_to_out loop in the source IS the structured program of Proofs/GenC15Proofs.v:
+    which primitive is issued inside which with / try block and in which order, what each
+    handler does and re-raises, where the temp file is created (next to the source,
+    delete=False), which test routes to the in-place path.  (Their behaviour under faults is
+    tied to the op model by the correspondence run; see GenC15Proofs.v for what is and is not
+    proved.) *)
+Theorem C15_source_stream_method_is_structured_model : gen_stream_in_to_out = stream_prog.
+Proof. exact gen_stream_is_prog. Qed.
+Print Assumptions C15_source_stream_method_is_structured_model.
+
+Theorem C15_source_object_method_is_structured_model : gen_object_in_to_out = object_prog.
+Proof. exact gen_object_is_prog. Qed.
+Print Assumptions C15_source_object_method_is_structured_model.
+
+Theorem C15_source_cleanup_helpers_are_structured_model :
+  (forall p, gen_remove_temp_file p = remove_temp_file_prog p) /\
+  (forall a b, gen_move_file a b = move_file_prog a b) /\
+  (forall a b, gen_move_temp_file a b = move_temp_file_prog a b).
+Proof. exact gen_helpers_are_progs. Qed.
+Print Assumptions C15_source_cleanup_helpers_are_structured_model.
+
+Theorem C15_source_loop_is_structured_model : gen_files_in_to_out = loop_prog.
+Proof. exact gen_loop_is_prog. Qed.
+Print Assumptions C15_source_loop_is_structured_model.
+
+(** move_temp_file as written (try move_file; on any exception remove_temp_file, whose own
+    failure is logged and dropped; re-raise the first error), run by the statement semantics, is
+    the op model's rename step with its handler - for EVERY fault assignment and state. *)
+Theorem C15_source_rename_step_is_model : forall nm F pl same x,
+  src_open (p_st x) = false -> wh_is_open (p_st x) = false -> in_try (p_st x) = false ->
+  p_stop x = None -> p_rf x = false ->
+  pexec_summary (pexec nm F pl same (gen_move_temp_file XOutfileName XInfileName) x)
+  = (let r := run_ops nm F [Replace (v_in (p_env x))] (p_n x) (p_st x) in
+     (erase_st (final r), outc r, (p_hist x ++ map fst (hist r))%list, next r, stop r, rmfail r)).
+Proof. exact move_temp_file_is_model. Qed.
+Print Assumptions C15_source_rename_step_is_model.
 
 (** * Non-vacuity: the theorems apply to concrete, non-trivial runs *)
 Definition ex_dir : dir := [("a.txt", "old A"); ("b.txt", "old B"); ("other", "x")].
